@@ -213,3 +213,53 @@ func TestConfirmXmpWhiteSpaceBetweenTokens(t *testing.T) {
 		t.Fatalf("white space between tokens loses properties:\n%s", strings.Join(bad, "\n"))
 	}
 }
+
+// TestConfirmXmpEntities: a well-formed packet writes '&', '<' and the delimiting quote of an attribute value as
+// entity or character references; the reported value is the text they stand for, in attribute and element form
+// and for array items alike.
+func TestConfirmXmpEntities(t *testing.T) {
+	const ns = `<rdf:Description rdf:about="" xmlns:tiff="http://ns.adobe.com/tiff/1.0/" xmlns:dc="http://purl.org/dc/elements/1.1/" `
+	want := `Tom & Jerry <"Inc"> 'é'`
+	esc := `Tom &amp; Jerry &lt;&quot;Inc&quot;&gt; &apos;&#233;&apos;`
+	hexesc := `Tom &#x26; Jerry &#60;&#x22;Inc&#34;&#x3E; &#39;&#xE9;&#x27;`
+	for name, body := range map[string]string{
+		"attribute": ns + `tiff:Make="` + esc + `" tiff:Model="M1"></rdf:Description>`,
+		"element":   ns + `><tiff:Make>` + esc + `</tiff:Make><tiff:Model>M1</tiff:Model></rdf:Description>`,
+		"char refs": ns + `tiff:Make="` + hexesc + `" tiff:Model="M1"></rdf:Description>`,
+	} {
+		x, err := xmp.ParseXmp(strings.NewReader(xmpPacket(body)))
+		if err != nil || x.Tiff.Make != want || x.Tiff.Model != "M1" {
+			t.Errorf("%s form: err=%v Make=%q (want %q) Model=%q", name, err, x.Tiff.Make, want, x.Tiff.Model)
+		}
+	}
+	x, err := xmp.ParseXmp(strings.NewReader(xmpPacket(ns + `><dc:creator><rdf:Seq><rdf:li>R&amp;D</rdf:li><rdf:li>plain</rdf:li></rdf:Seq></dc:creator></rdf:Description>`)))
+	if err != nil || len(x.DC.Creator) != 2 || x.DC.Creator[0] != "R&D" || x.DC.Creator[1] != "plain" {
+		t.Errorf("array items: err=%v Creator=%q", err, x.DC.Creator)
+	}
+	// what is not a reference stays as written
+	x, _ = xmp.ParseXmp(strings.NewReader(xmpPacket(ns + `tiff:Make="a &bogus; b &amp" tiff:Model="M1"></rdf:Description>`)))
+	if x.Tiff.Make != "a &bogus; b &amp" {
+		t.Errorf("unknown entity: Make=%q", x.Tiff.Make)
+	}
+}
+
+// TestConfirmXmpComments: a comment between two elements is well-formed; the elements around it are reported as
+// without it, wherever the comment falls in the look-ahead windows and whatever it contains.
+func TestConfirmXmpComments(t *testing.T) {
+	const ns = `<rdf:Description rdf:about="" xmlns:tiff="http://ns.adobe.com/tiff/1.0/" xmlns:dc="http://purl.org/dc/elements/1.1/" `
+	for _, n := range []int{0, 1, 60, 100, 110, 115, 120, 121, 122, 123, 124, 125, 126, 127, 128, 129, 130, 500} {
+		pad := strings.Repeat(" ", n)
+		for name, body := range map[string]string{
+			"comment":          ns + `>` + pad + `<!-- a comment --><tiff:Make>Canon</tiff:Make><tiff:Model>M1</tiff:Model></rdf:Description>`,
+			"comment-with-tag": ns + `>` + pad + `<!-- <tiff:Make>Nikon</tiff:Make> -- > - ->` + strings.Repeat("x", n) + `--><tiff:Make>Canon</tiff:Make><tiff:Model>M1</tiff:Model></rdf:Description>`,
+			"in seq":           ns + `><dc:creator><rdf:Seq>` + pad + `<!--c--><rdf:li>a</rdf:li><!-- <rdf:li>x</rdf:li> --><rdf:li>b</rdf:li></rdf:Seq></dc:creator><tiff:Make>Canon</tiff:Make><tiff:Model>M1</tiff:Model></rdf:Description>`,
+			"before desc":      `<!--x-->` + pad + ns + `tiff:Make="Canon" tiff:Model="M1"/>`,
+			"at end":           ns + `tiff:Make="Canon" tiff:Model="M1"/>` + pad + `<!--x-->`,
+		} {
+			x, err := xmp.ParseXmp(strings.NewReader(xmpPacket(body)))
+			if err != nil || x.Tiff.Make != "Canon" || x.Tiff.Model != "M1" || (name == "in seq" && strings.Join(x.DC.Creator, ",") != "a,b") {
+				t.Errorf("%s, %d bytes of padding: err=%v Make=%q Model=%q creator=%q", name, n, err, x.Tiff.Make, x.Tiff.Model, x.DC.Creator)
+			}
+		}
+	}
+}
